@@ -179,9 +179,9 @@ def build_cases(tier, seed, wd, run, wide=False):
         cases.append({"G": G, "pres": pres, "src": grammar.render(G, pres), "origin": "random"})
     # one-dimension scale: ONE rule with more than 256 fields (dot positions beyond a byte), between short rules
     # (TLC needs about two minutes to judge one of them, so the quick tier has a single one and only in the C17 check;
-    # the thorough tier of C04, C11 and C17 has six)
-    for k in range(0 if not wide else 1 if tier == "quick" else 6):
-        n = [257, 258, 300, 257, 259, 512][k]
+    # the thorough tier of C04, C11 and C17 has three - with six, one of them 512 fields wide, the judge ran for more than 40 minutes)
+    for k in range(0 if not wide else 1 if tier == "quick" else 3):
+        n = [257, 258, 300][k]
         a = "$Ta" if k % 2 == 0 else "A"        # the repeated symbol: a terminal, or a nonterminal with one production
         G = {"nts": ["S", "B", "C"] + (["A"] if a == "A" else []), "ts": ["$Ta", "$Tb", "$Tc"], "start": "S",
              "rules": [{"lhs": "S", "rhs": ["B"]}, {"lhs": "S", "rhs": [a] * n + ["B"]}, {"lhs": "S", "rhs": ["C", a]},
